@@ -135,6 +135,8 @@ class Gen:
         self.k = 0
         self.prefix_cfg = {}      # "pN" -> {key: value}
         self.cfgp_embeds = 0
+        self.pool = []            # completed struct nodes whose TYPE may occur again at another position
+        self.reused = 0
 
     def nxt(self):
         self.k += 1
@@ -163,9 +165,62 @@ class Gen:
         return {"n": "X%d" % k, "e": True, "k": "int", "tags": [], "anon": False, "ptr": False, "pre": False, "fs": [],
                 "imp": None}
 
-    def sub(self, depth, chain):
+    def reuse(self, src, sibnames):
+        """a further occurrence of an already declared struct type (same gotype, same fields) at another position: as
+        an entered embedded struct most of the time (the scan must expand EVERY occurrence), otherwise as a pointer /
+        tagged embedded or a named field of that type"""
+        rng = self.rng
+        k = self.nxt()
+        tname = src["gotype"]
+        node = {"k": "struct", "tags": [], "anon": True, "ptr": False, "pre": False, "imp": None, "gotype": tname,
+                "n": tname, "e": tname[:1].isupper(), "fs": copy.deepcopy(src["fs"])}
+        base = rng.choice(["entered"] * 7 + ["ptr_embed", "tag_embed", "named", "named_ptr"])
+        if base in ("named", "named_ptr"):
+            node["anon"] = False
+            node["e"] = rng.random() < 0.8
+            node["n"] = ("N%d" if node["e"] else "n%d") % k
+            if base == "named_ptr":
+                node["ptr"], node["pre"] = True, rng.random() < 0.6
+            r = rng.random()
+            if r < 0.25:
+                node["tags"] = foreign_tags(rng)
+            elif r < 0.50:
+                node["tags"] = self.prefix_tag(k)
+        else:
+            if tname in sibnames:      # Go rejects two embedded fields of one type in one struct
+                return None
+            if base == "ptr_embed":
+                node["ptr"], node["pre"] = True, rng.random() < 0.6
+                r = rng.random()
+                if r < 0.25:
+                    node["tags"] = foreign_tags(rng)
+                elif r < 0.45:
+                    node["tags"] = self.prefix_tag(k)
+            elif base == "tag_embed":
+                node["tags"] = foreign_tags(rng) if rng.random() < 0.5 else self.prefix_tag(k)
+        self.note_prefix(node, k)
+        self.reused += 1
+        return node
+
+    def note_prefix(self, node, k):
+        if any(t["key"] == "prefix" for t in node["tags"]):
+            sect = {}
+            for f in node["fs"]:
+                if f["k"] == "int" and f["e"] and not any(t["key"] in ("yaml",) for t in f["tags"]):
+                    sect[f["n"].lower()] = 100 + len(sect)
+            self.prefix_cfg["p%d" % k] = sect
+
+    def poolable(self, node):
+        # structs that embed CfgA get Prefix() promoted and must stay on the entered chain: never repeated elsewhere
+        return node.get("gotype") != "CfgA" and not contains_cfga(node["fs"]) and count_nodes(node["fs"]) <= 14
+
+    def sub(self, depth, chain, sibnames=()):
         """chain: every enclosing struct up to the component is entered by the scan"""
         rng = self.rng
+        if self.pool and rng.random() < 0.30:
+            node = self.reuse(rng.choice(self.pool), sibnames)
+            if node is not None:
+                return node
         k = self.nxt()
         variants = ["entered"] * 5 + ["ptr_embed", "ptr_embed", "tag_embed", "tag_embed", "named", "named", "named_ptr"]
         if self.static:
@@ -215,13 +270,53 @@ class Gen:
             elif r < 0.50:
                 node["tags"] = self.prefix_tag(k)
         node["fs"] = [self.plain_int()] + self.fields(depth + 1, rng.choice([0, 1, 2, 3]), chain and base == "entered")
-        if any(t["key"] == "prefix" for t in node["tags"]):
-            sect = {}
-            for f in node["fs"]:
-                if f["k"] == "int" and f["e"] and not any(t["key"] in ("yaml",) for t in f["tags"]):
-                    sect[f["n"].lower()] = 100 + len(sect)
-            self.prefix_cfg["p%d" % k] = sect
+        self.note_prefix(node, k)
+        if self.poolable(node):
+            self.pool.append(node)
         return node
+
+    def entered(self, fs, unexp=False):
+        """a fresh anonymous, untagged, by-value embedded struct type with the given fields"""
+        k = self.nxt()
+        unexp = unexp and self.static
+        tname = (("s%dt%d" if unexp else "S%dT%d") % (self.cid, k)) if self.static else "E%d" % k
+        return {"n": tname, "e": not unexp, "k": "struct", "tags": [], "anon": True, "ptr": False, "pre": False,
+                "imp": None, "gotype": tname, "fs": fs}
+
+    def diamond(self):
+        """Common reached more than once: Reader{Common}, Writer{Common}, ... (and sometimes Common itself next to them,
+        or a wrapper inside a wrapper, so that the occurrences lie at different depths); returns the root-level nodes"""
+        rng = self.rng
+        common_fs = [self.tagged_leaf() for _ in range(rng.choice([1, 2, 2, 3]))]
+        if rng.random() < 0.3:
+            common_fs.insert(rng.randrange(len(common_fs) + 1), self.leaf())
+        if rng.random() < 0.25:
+            common_fs.append(self.sub(2, False, [f["n"] for f in common_fs]))
+        common = self.entered(common_fs, rng.random() < 0.4)
+        wrappers = []
+        for _ in range(rng.choice([2, 2, 2, 3])):
+            fs = [self.leaf() for _ in range(rng.choice([0, 1, 1, 2]))]
+            c2 = copy.deepcopy(common)
+            fs.insert(rng.randrange(len(fs) + 1), c2)
+            wrappers.append(self.entered(fs, rng.random() < 0.4))
+        r = rng.random()
+        if r < 0.25:      # Common directly on the component as well (depth 1 and depth 2)
+            c2 = copy.deepcopy(common)
+            wrappers.insert(rng.randrange(len(wrappers) + 1), c2)
+        elif r < 0.50:    # one wrapper inside another wrapper: Outer{Inner{Common}; Common}? no: Outer{W1} next to W2
+            inner = wrappers.pop(0)
+            wrappers.append(self.entered([self.leaf(), inner], rng.random() < 0.4))
+        self.reused += len(wrappers)
+        return wrappers
+
+    def tagged_leaf(self):
+        """an exported leaf with a recognised tag (what the scan must find in every occurrence)"""
+        rng = self.rng
+        kind = rng.choice(SCALARS * 3 + ["dep", "depi", "depis", "logger", "cfgplain", "map"])
+        k = self.nxt()
+        tags = recognised_tags(rng, kind)
+        return {"n": "F%d" % k, "e": True, "k": kind, "tags": tags, "anon": False, "ptr": False, "pre": False, "fs": [],
+                "imp": None}
 
     def prefix_tag(self, k):
         return [mk_tag("prefix", "c11.p%d" % k)]
@@ -230,10 +325,14 @@ class Gen:
         out = []
         for _ in range(n):
             if depth < 3 and self.rng.random() < (0.45 if depth == 0 else 0.35):
-                out.append(self.sub(depth, chain))
+                out.append(self.sub(depth, chain, [f["n"] for f in out]))
             else:
                 out.append(self.leaf())
         return out
+
+
+def contains_cfga(shape):
+    return any(s["k"] == "struct" and (s.get("gotype") == "CfgA" or contains_cfga(s["fs"])) for s in shape)
 
 
 def gen_case(rng, cid, static):
@@ -241,7 +340,30 @@ def gen_case(rng, cid, static):
     shape = g.fields(0, rng.choice([2, 3, 4, 5, 6]))
     if not any(is_entered(s) for s in shape) and rng.random() < 0.8:
         shape.insert(rng.randrange(len(shape) + 1), force_entered(g))
-    return {"id": cid, "static": static, "shape": shape, "prefix_cfg": g.prefix_cfg}
+    if rng.random() < 0.22:
+        names = {s["n"] for s in shape}
+        for w in g.diamond():
+            if w["n"] not in names:
+                names.add(w["n"])
+                shape.insert(rng.randrange(len(shape) + 1), w)
+    case = {"id": cid, "static": static, "shape": shape, "prefix_cfg": g.prefix_cfg}
+    check_types(case)
+    return case
+
+
+def check_types(case):
+    """generator invariant: one gotype = one field list (a Go type is declared once), siblings have distinct names"""
+    seen = {}
+
+    def walk(shape):
+        names = [s["n"] for s in shape]
+        assert len(names) == len(set(names)), ("duplicate sibling", names)
+        for s in shape:
+            if s["k"] == "struct":
+                sig = json.dumps(s["fs"], sort_keys=True)
+                assert seen.setdefault(s["gotype"], sig) == sig, ("type declared twice differently", s["gotype"])
+                walk(s["fs"])
+    walk(case["shape"])
 
 
 def force_entered(g):
@@ -266,6 +388,13 @@ def flatten(shape):
     return out
 
 
+def flat_buildable(case):
+    """the flattened twin declares every reached field directly on one struct: impossible (duplicate field names) when a
+    struct type is entered more than once"""
+    names = [s["n"] for s in flatten(case["shape"])]
+    return len(names) == len(set(names))
+
+
 def config_text(case):
     lines = ["c11:", "  i: 42", "  s: hello", "  b: true", "  f: 1.5", "  cfg: {host: h1, port: 8080}",
              "  cfga: {host: ha, port: 1}", "  m: {k1: v1, k2: 2}"]
@@ -284,7 +413,7 @@ def go_nodes(shape):
 
 def go_case(case):
     flat = flatten(case["shape"])
-    has_flat = any(is_entered(s) for s in case["shape"])
+    has_flat = any(is_entered(s) for s in case["shape"]) and flat_buildable(case)
     return {"id": case["id"], "config": config_text(case), "static": ("S%d" % case["id"]) if case["static"] else "",
             "shape": go_nodes(case["shape"]), "flat": go_nodes(flat) if has_flat else None}
 
@@ -323,9 +452,10 @@ def static_source(cases):
         root = "S%dRoot" % c["id"]
         declare(root, c["shape"])
         reg.append('\tstaticShapes["S%d"] = func() any { return &%s{} }' % (c["id"], root))
-        flat = flatten(c["shape"])
-        declare(root + "F", flat)
-        reg.append('\tstaticShapes["S%dF"] = func() any { return &%sF{} }' % (c["id"], root))
+        if flat_buildable(c):
+            flat = flatten(c["shape"])
+            declare(root + "F", flat)
+            reg.append('\tstaticShapes["S%dF"] = func() any { return &%sF{} }' % (c["id"], root))
     out.append("func init() {")
     out += reg
     out.append("}")
@@ -481,33 +611,54 @@ def count_nodes(shape):
 
 
 def shrink_candidates(case):
+    """delete one field / clear one field's tags IN A TYPE: the edit is applied to every occurrence of the struct type
+    that declares the field (one gotype = one declaration), so repeated types stay repeated"""
     out = []
+    types = {None: case["shape"]}
 
-    def positions(shape, pre):
-        for i, s in enumerate(shape):
-            yield pre + [i]
-            if s["fs"] and s.get("gotype") != "CfgA":
-                yield from positions(s["fs"], pre + [i])
+    def collect(shape):
+        for s in shape:
+            if s["k"] == "struct" and s.get("gotype") != "CfgA":
+                types.setdefault(s["gotype"], s["fs"])
+                collect(s["fs"])
+    collect(case["shape"])
 
-    def get_list(shape, pos):
-        cur = shape
-        for i in pos[:-1]:
-            cur = cur[i]["fs"]
-        return cur
+    def each_decl(d, tname):
+        if tname is None:
+            yield d["shape"]
+            return
 
-    for pos in positions(case["shape"], []):
-        d = copy.deepcopy(case)
-        lst = get_list(d["shape"], pos)
-        if len(lst) > 1 or len(pos) == 1:
-            del lst[pos[-1]]
-            if d["shape"]:
-                out.append(d)
-        d2 = copy.deepcopy(case)
-        node = get_list(d2["shape"], pos)[pos[-1]]
-        if node["tags"] and not (node["k"] == "struct" and node["anon"]):
-            node["tags"] = []
-            out.append(d2)
-    return out[:80]
+        def walk(shape):
+            for s in shape:
+                if s["k"] == "struct":
+                    if s.get("gotype") == tname:
+                        yield s["fs"]
+                    yield from walk(s["fs"])
+        yield from walk(d["shape"])
+
+    for tname, fs in types.items():
+        for i, f in enumerate(fs):
+            if len(fs) > 1 or tname is None:
+                d = copy.deepcopy(case)
+                for lst in list(each_decl(d, tname)):
+                    if i < len(lst):
+                        del lst[i]
+                if d["shape"]:
+                    out.append(d)
+            if f["tags"] and not (f["k"] == "struct" and f["anon"]):
+                d2 = copy.deepcopy(case)
+                for lst in list(each_decl(d2, tname)):
+                    if i < len(lst):
+                        lst[i]["tags"] = []
+                out.append(d2)
+    good = []
+    for d in out:
+        try:
+            check_types(d)
+            good.append(d)
+        except AssertionError:
+            pass
+    return good[:80]
 
 
 # ------------------------------------------------------------------------------------------------
@@ -569,12 +720,62 @@ def stats(cases):
                     kinds["(ConfigurationProperties type)"] = kinds.get("(ConfigurationProperties type)", 0) + 1
         return dmax
 
+    rep = {"cases_with_a_struct_type_at_several_positions": 0,
+           "cases_with_a_type_entered_more_than_once": 0,
+           "cases_with_recognised_tags_in_a_later_entered_occurrence": 0,
+           "of_these_static_types": 0, "of_these_structof": 0,
+           "cases_with_occurrences_at_different_depths": 0,
+           "max_entered_occurrences_of_one_type": 0}
     for c in cases:
         d = walk(c["shape"], 0)
         depth_hist[d] = depth_hist.get(d, 0) + 1
+        r = repeated_types(c)
+        if r["any"]:
+            rep["cases_with_a_struct_type_at_several_positions"] += 1
+        if r["entered"]:
+            rep["cases_with_a_type_entered_more_than_once"] += 1
+        if r["tagged"]:
+            rep["cases_with_recognised_tags_in_a_later_entered_occurrence"] += 1
+            rep["of_these_static_types" if c["static"] else "of_these_structof"] += 1
+        if r["depths"]:
+            rep["cases_with_occurrences_at_different_depths"] += 1
+        rep["max_entered_occurrences_of_one_type"] = max(rep["max_entered_occurrences_of_one_type"], r["max"])
     return {"struct_variants": variants, "embedding_depth": depth_hist, "leaf_tags": kinds,
+            "repeated_embedded_types": rep,
             "static_types_cases": sum(1 for c in cases if c["static"]),
             "structof_cases": sum(1 for c in cases if not c["static"])}
+
+
+RECOGNISED = ("wire", "func", "value", "prop", "prefix", "logger", "rec", "aux")
+
+
+def repeated_types(case):
+    """occurrences of each struct type: anywhere, and on the entered chain (where the scan must expand it)"""
+    anyocc, ent = {}, {}
+
+    def has_tag(shape):
+        for s in shape:
+            if is_entered(s):
+                if has_tag(s["fs"]):
+                    return True
+            elif s["e"] and (any(t["key"] in RECOGNISED for t in s["tags"]) or s.get("imp")):
+                return True
+        return False
+
+    def walk(shape, depth, chain):
+        for s in shape:
+            if s["k"] != "struct" or s.get("gotype") == "CfgA":
+                continue
+            anyocc.setdefault(s["gotype"], []).append(depth)
+            if chain and is_entered(s):
+                ent.setdefault(s["gotype"], []).append((depth, has_tag(s["fs"])))
+            walk(s["fs"], depth + 1, chain and is_entered(s))
+    walk(case["shape"], 1, True)
+    multi = [v for v in ent.values() if len(v) > 1]
+    return {"any": any(len(v) > 1 for v in anyocc.values()), "entered": bool(multi),
+            "tagged": any(v[0][1] for v in multi),
+            "depths": any(len({d for d, _ in v}) > 1 for v in multi),
+            "max": max([len(v) for v in ent.values()] or [0])}
 
 
 def run(ctx):
@@ -641,6 +842,7 @@ def run(ctx):
                 "properties of the twin; non-trivial = some property lies below an entered embedded struct AND some field "
                 "with a recognised tag must stay untouched (unexported, or inside a struct that is not entered); distinct = "
                 "distinct shapes",
+        "repeated_embedded_type_cases": sum(1 for c in cases if repeated_types(c)["tagged"]),
         "samples": samples,
         "traces_validated_against_impl": len(cases),
         "input_distribution": stats(cases),
